@@ -35,7 +35,16 @@ type C12Case struct {
 }
 
 var c12Kinds = []string{
-	world.KIngress, world.KIngress, world.KIngress, world.KEndpoints, world.KEndpoints, world.KService, world.KSecret,
+	world.KIngress, world.KIngress, world.KIngress, world.KEndpoints, world.KEndpoints, world.KService, world.KSecret, world.KConfigMap,
+}
+
+// c12GlobalKeys: global options whose change rewrites files of their own (custom responses: errorfiles and a Lua
+// script), the backend sections (ssl-redirect-code) or only the main file (timeout-client)
+var c12GlobalKeys = []annChoice{
+	{"timeout-client", []string{"30s", "40s"}},
+	{"ssl-redirect-code", []string{"301", "307"}},
+	{"http-response-404", []string{"content-type: text/plain\n\n404 page one\n", "content-type: text/plain\n\n404 page two\n"}},
+	{"http-response-503", []string{"503 Service Unavailable\ncontent-type: text/plain\n\nbusy\n", "503 Service Unavailable\ncontent-type: text/plain\n\nlater\n"}},
 }
 
 func genC12(t *rapid.T) C12Case {
@@ -43,7 +52,9 @@ func genC12(t *rapid.T) C12Case {
 	p.Classes = false
 	p.MissingRefs = true
 	p.Avoid = []avoidRule{{Sig: sigDefBackJoins, Pred: gainsDefaultBackend}}
-	params := ctlsim.Params{Shards: rapid.SampledFrom([]int{0, 0, 3}).Draw(t, "shards"), ReloadQueue: chanceT(t, "reloadqueue", 30)}
+	p.GlobalCM = true
+	p.GlobalKeys = c12GlobalKeys
+	params := ctlsim.Params{Shards: rapid.SampledFrom([]int{0, 0, 2, 3}).Draw(t, "shards"), ReloadQueue: chanceT(t, "reloadqueue", 30)}
 	h := genHistory(t, p, params, c12Kinds, sizeScale(4, 8), 3)
 	for i := range h.Split {
 		h.Split[i] = -1
@@ -303,7 +314,9 @@ func genC12Enum(t *rapid.T) C12EnumCase {
 	p.Classes = false
 	p.MissingRefs = true
 	p.Avoid = []avoidRule{{Sig: sigDefBackJoins, Pred: gainsDefaultBackend}}
-	params := ctlsim.Params{Shards: rapid.SampledFrom([]int{0, 3, 3}).Draw(t, "shards")}
+	p.GlobalCM = true
+	p.GlobalKeys = c12GlobalKeys
+	params := ctlsim.Params{Shards: rapid.SampledFrom([]int{0, 2, 3}).Draw(t, "shards")}
 	h := genHistory(t, p, params, c12Kinds, 3, 3)
 	for i := range h.Split {
 		h.Split[i] = -1
